@@ -42,7 +42,7 @@ def pack_boundary(rng):
     big = gens.hdr(bits=0x8180, an=3) + gens.raw_name([b"pad"]) + b"\0" + struct.pack(">HHIH", 16, 1, 60, 17000) + bytes(17000)
     big += rec([b"late", b"example"], [1, 1, 1, 1]) + rec([b"late", b"example"], [2, 2, 2, 2])
     out.append(("beyond3fff", big))
-    for n in (9, 10, 11, 12, 13):
+    for n in (9, 10, 11, 12, 13, 64, 126, 127):
         out.append(("deep%d" % n, gens.deep_chain_msg(n)))
     return out
 
@@ -177,12 +177,12 @@ PROPS["C01"] = dict(
                "streamgarbage), not proved.",
 )
 C02_NOTE = ("C02: Len exact and plain round trip for every well-formed message with arbitrary trailing octets; compressed "
-            "round trip for every message whose names have <= 10 labels (compression-table invariant); beyond that the "
-            "statement is refuted (K1, known finding). Partial: agreement of third-party decoders (miekg/dns) is tested "
+            "round trip for EVERY well-formed message as well (compression-table invariant: a name of k labels needs at "
+            "most k <= 127 hops; unconditional since the fix of K1 raised the decoder's pointer limit from 10 to 127). Partial: agreement of third-party decoders (miekg/dns) is tested "
             "by the harness, not proved.")
 C09_NOTE = ("C09: totality of Pack on well-formed messages, the size bound and fits-untouched hold with and without "
             "compression; without compression the exact octets are the canonical encoding of the truncated message; with "
-            "compression the output decodes to the kept records with TC iff omitted (names <= 10 labels); listener limits "
+            "compression the output decodes to the kept records with TC iff omitted (every well-formed message); listener limits "
             "proved on the router model and observed on real sockets (handle kind).")
 PROPS["C02"] = dict(
     kinds=[dict(name="pack", gen=c02_pack_gen, shards=16, respec=pack_respec, respec_kind="packspec", nontrivial=pack_nontrivial, timeout=1500)],
